@@ -18,7 +18,7 @@ GRID2 = dict(plon=-100., plat=45., iutm=0, xorg=-24., yorg=12., delx=4., dely=2.
 FORMATS = ('uamiv', 'lateral_boundary', 'humidity', 'vertical_diffusivity', 'one3d', 'temperature',
            'height_pressure', 'wind', 'cloud_rain')
 MET = ('humidity', 'vertical_diffusivity', 'one3d', 'temperature', 'height_pressure', 'wind', 'cloud_rain')
-CLDHDRS = ['CAMx_V4.3 CLOUD_RAIN', 'CAMx_V6.5 CLOUD_RAIN']
+CLDHDRS = ['CAMx_V4.3 CLOUD_RAIN', 'CAMx_V6.5 CLOUD_RAIN', 'CAMx_V6 CLOUD_RAIN  ', ' CAMx CLOUD_RAIN v7  ']
 
 
 def field(kind, shape, base):
@@ -108,6 +108,9 @@ def extras(fmt, add):
             add(nsteps=n, crv3=True, shape=[2, 3, 3])
         add(cldhdr=1)
         add(cldhdr=1, nsteps=1)
+        # descriptors padded with blanks (a Fortran character*20 field)
+        add(cldhdr=2)
+        add(cldhdr=3, nsteps=1)
     if fmt in MET:
         # files that run over New Year with two steps before midnight
         for n in (3, 4):
